@@ -841,6 +841,13 @@ def chain_round_trip_rule(chk, src):
         def __abs__(self):
             return Val(f"abs({self._name})")
 
+        def any(self, *a, **k):
+            """a test of the stored values: this run takes the outcome `no entry is non-zero` (a tensor of a complex state whose imaginary part vanishes is a legitimate input)"""
+            return False
+
+        def all(self, *a, **k):
+            return False
+
         def __float__(self):
             raise TypeError(f"float() of the stored value {self._name}")
 
@@ -896,7 +903,9 @@ def chain_round_trip_rule(chk, src):
 
                 def __len__(self):
                     return len(self.items)
-            itd = SymInterp(src, resolve, {"np": OpenSym("np", savez=lambda fname, **kw: saved.update(kw), empty=lambda n_, t=None, dtype=None, **k_: ObjArr()), "logger": Blob("logger"), "object": object,
+            itd = SymInterp(src, resolve, {"np": OpenSym("np", savez=lambda fname, **kw: saved.update(kw), empty=lambda n_, t=None, dtype=None, **k_: ObjArr(), iscomplexobj=lambda x: True, iscomplex=lambda x: True,
+                                                             isrealobj=lambda x: False, real=lambda x: x.real, imag=lambda x: x.imag),
+                                           "logger": Blob("logger"), "object": object,
                                         "super": lambda: Sym("super", dump=lambda fname, other_attrs=None: itd.call_function(base_d, [me, fname, other_attrs]))})
             itd.builtins["isinstance"] = lambda x, t: isinstance(x, t) if isinstance(t, type) else False
             from ..syminterp import SymRaise
